@@ -21,8 +21,9 @@ import lib
 from lib import gz, glist, gbool
 
 THEOREMS = ['C12_built_once', 'C12_served_whole', 'C12_no_interference', 'C12_schedule_independent',
-            'C12_memo_transparent', 'C12_attrs_transparent', 'C12_errlog_isolated',
-            'C12_mutual_exclusion', 'C12_no_deadlock',
+            'C12_steps_bounded', 'C12_no_deadlock', 'C12_all_served',
+            'C12_memo_transparent', 'C12_attrs_transparent', 'C12_sort_transparent', 'C12_errlog_isolated',
+            'C12_mutual_exclusion', 'C12_text_is_model_text', 'C12_text_paths',
             'C12_pinned_wsdl_refuted', 'C12_pinned_attrs_refuted', 'C12_pinned_errlog_refuted']
 
 TNS = 'c12.tns'
@@ -32,6 +33,7 @@ RD_APP, RD_B, WR_APP, ACQ_W, BUILD, WR_B, REL_W = 1, 2, 3, 4, 5, 6, 7
 ACQ_V, VALIDATE, RD_LOG, REL_V = 8, 9, 10, 11
 C_GET, C_PUB, C_UPD1, C_UPD2, C_USE = 12, 13, 14, 15, 16
 M_IN, M_ACQ, M_SET, M_REL, M_GET = 17, 18, 20, 21, 22
+S_GET, S_SET = 23, 24
 
 
 class Abort(BaseException):
@@ -372,17 +374,22 @@ def monitor_writes(sched, obj):
 
 
 class TracedCache(weakref.WeakKeyDictionary):
-    """_attrcache / _sortcache replacement: get and __setitem__ are switch points"""
-    def __init__(self, sched, keyid, encval):
+    """_attrcache / _sortcache replacement: get and __setitem__ are switch points.
+    mode 'attrs': get records (C_GET, key, hit?), the stored dictionary is remembered so that later
+    updates of it count as shared accesses; mode 'sort': get records (S_GET, key, value read or -1)"""
+    def __init__(self, sched, keyid, encval, mode='attrs'):
         weakref.WeakKeyDictionary.__init__(self)
-        self.s, self.keyid, self.encval = sched, keyid, encval
+        self.s, self.keyid, self.encval, self.mode = sched, keyid, encval, mode
 
     def get(self, k, d=None):
         s = self.s
         if s.active and s.me() is not None and self.keyid(k) is not None:
             s.point('acc')
             v = weakref.WeakKeyDictionary.get(self, k, d)
-            s.record(C_GET, self.keyid(k), 0 if v is None else 1)
+            if self.mode == 'attrs':
+                s.record(C_GET, self.keyid(k), 0 if v is None else 1)
+            else:
+                s.record(S_GET, self.keyid(k), -1 if v is None else self.encval(self.keyid(k), v))
             return v
         return weakref.WeakKeyDictionary.get(self, k, d)
 
@@ -390,8 +397,11 @@ class TracedCache(weakref.WeakKeyDictionary):
         s = self.s
         if s.active and s.me() is not None and self.keyid(k) is not None:
             s.point('acc')
-            s.record(C_PUB, self.keyid(k), self.encval(self.keyid(k), v))
-            s.published[id(v)] = [self.keyid(k), 0, v]
+            if self.mode == 'attrs':
+                s.record(C_PUB, self.keyid(k), self.encval(self.keyid(k), v))
+                s.published[id(v)] = [self.keyid(k), 0, v]
+            else:
+                s.record(S_SET, self.keyid(k), self.encval(self.keyid(k), v))
         weakref.WeakKeyDictionary.__setitem__(self, k, v)
 
 
@@ -470,6 +480,13 @@ def base_val(k): return 10 * k
 def has_prot(k): return k % 2 == 1
 def mf(k): return 7 * k + 3
 
+PERMS = list(itertools.permutations('abc'))
+
+def encsort(k, items):
+    """the list sort_fields returned for sort class k, as 100k + index of the order of its field names"""
+    names = tuple(n for n, _ in items)
+    return 100 * k + (PERMS.index(names) if names in PERMS else 9)
+
 
 class World(object):
     """one fresh Application + WsgiApplication + the unit-level shared objects"""
@@ -517,6 +534,12 @@ def make_world(sched, instrument=True, validator='lxml', monitor=True):
         def count(ctx, b):
             return sum((i.qty or 0) for i in (b.items or []))
 
+        # the response depends on a protocol attribute of the return type (get_cls_attrs of the
+        # OUT protocol): with incomplete attributes the brackets are missing
+        @rpc(Unicode, _returns=Unicode(pa={Soap11: dict(str_format=u'[{0}]')}))
+        def tag(ctx, s):
+            return s
+
     app = Application([Svc], TNS, name='C12App', in_protocol=in_prot, out_protocol=out_prot)
     wsgi = WsgiApplication(app)
     w.app, w.wsgi, w.in_prot, w.out_prot = app, wsgi, in_prot, out_prot
@@ -530,6 +553,23 @@ def make_world(sched, instrument=True, validator='lxml', monitor=True):
             T = Unicode.customize(max_len=100 + k)
         w.keys.append(T)
     w.keyid = {T: i for i, T in enumerate(w.keys)}
+    # sort_fields keys: class k has fields a, b, c whose `order` attributes put them in the (k mod 6)-th
+    # permutation; odd classes use negative orders; classes 2 and 3 declare the REVERSE order in their plain
+    # attributes and the real one as a protocol attribute, so the sorted list depends on complete attributes
+    w.skeys = []
+    for k in range(N_KEYS):
+        target = PERMS[k % 6]
+        fields = []
+        for name in 'abc':
+            j = target.index(name)
+            o = j - 3 if k % 2 == 1 else j
+            if k in (2, 3):
+                ro = (2 - j) - 3 if k % 2 == 1 else (2 - j)
+                fields.append((name, Unicode(order=ro, pa={Soap11: dict(order=o)})))
+            else:
+                fields.append((name, Unicode(order=o)))
+        w.skeys.append(ComplexModel.produce(TNS + '.sort', 'SortKey%d' % k, fields))
+    w.skeyid = {T: i for i, T in enumerate(w.skeys)}
     w.memo = memoize(lambda k: mf(k))
     try:
         memoize.registry.remove(w.memo)
@@ -563,6 +603,7 @@ def make_world(sched, instrument=True, validator='lxml', monitor=True):
     w.memo.memo = TracedMemo(sched)
     # caches
     in_prot._attrcache = TracedCache(sched, lambda c: w.keyid.get(c), encval)
+    in_prot._sortcache = TracedCache(sched, lambda c: w.skeyid.get(c), encsort, mode='sort')
     # validator
     if in_prot.validation_schema is not None:
         in_prot.validation_schema = SchemaProxy(sched, in_prot.validation_schema, errid)
@@ -633,8 +674,10 @@ def req_body(r):
     if kind == 'box':
         return soap('<tns:box><tns:owner>%s</tns:owner><tns:n>%d</tns:n></tns:box>' % (r[1], r[2]))
     if kind == 'count':
-        items = ''.join('<tns:Item><tns:label>i%d</tns:label><tns:qty>%d</tns:qty></tns:Item>' % (q, q) for q in r[2])
+        items = ''.join('<tns:Item><tns:name>i%d</tns:name><tns:qty>%d</tns:qty></tns:Item>' % (q, q) for q in r[2])
         return soap('<tns:count><tns:b><tns:owner>%s</tns:owner><tns:items>%s</tns:items></tns:b></tns:count>' % (r[1], items))
+    if kind == 'tag':
+        return soap('<tns:tag><tns:s>%s</tns:s></tns:tag>' % r[1])
     if kind == 'invalid':      # schema-invalid: unknown element bad<i> inside a known method
         return soap('<tns:echo><tns:bad%d>x</tns:bad%d></tns:echo>' % (r[1], r[1]))
     if kind == 'badint':       # schema-invalid: not an integer
@@ -692,6 +735,13 @@ def unit_body(w, sched, r):
             out = []
             for k in r[1]:
                 out.append(enc_opt(w.memo(k)))
+            return ['vals', out]
+        return f
+    if kind == 'sort':
+        def f():
+            out = []
+            for k in r[1]:
+                out.append(encsort(k, w.in_prot.sort_fields(w.skeys[k])))
             return ['vals', out]
         return f
     if kind == 'validate':
@@ -757,6 +807,8 @@ def alone(r):
             res = ['vals', [encval(k, w.in_prot.get_cls_attrs(w.keys[k])) for k in r[1]]]
         elif kind == 'memo':
             res = ['vals', [w.memo(k) for k in r[1]]]
+        elif kind == 'sort':
+            res = ['vals', [encsort(k, w.in_prot.sort_fields(w.skeys[k])) for k in r[1]]]
         else:
             w.encval = None
             res = unit_body(w, s, r)()
@@ -912,6 +964,9 @@ def judge(check, run):
             elif r[0] == 'memo':
                 what = 'memoize caller %d got %r, alone it gets %r' % (i, got, exp)
                 key = 'C12|memo|wrong-value'
+            elif r[0] == 'sort':
+                what = 'sort_fields caller %d got field orders %r, alone it gets %r' % (i, got, exp)
+                key = 'C12|sort|wrong-order'
             else:
                 what = ('request %r (thread %d, racing with %s) got status %r body %r; alone it gets status %r body %r'
                         % (r, i, kinds, got[1], got[3][:300], exp[1], exp[3][:300]))
@@ -936,6 +991,8 @@ def coq_req(r):
         return '(RAttrs %s)' % glist([gz(x) for x in r[1]])
     if k == 'memo':
         return '(RMemo %s)' % glist([gz(x) for x in r[1]])
+    if k == 'sort':
+        return '(RSort %s)' % glist([gz(x) for x in r[1]])
     return 'RIdle'
 
 def coq_resp(r, res):
@@ -949,7 +1006,7 @@ def coq_resp(r, res):
         if v[0] == 'valid':
             return '(Some PValid)'
         return '(Some (PFault %s))' % ('None' if v[1] == -1 else '(Some %s)' % gz(v[1]))
-    if k in ('attrs', 'memo'):
+    if k in ('attrs', 'memo', 'sort'):
         return '(Some (PVals %s))' % glist([gz(x) for x in v[1]])
     return None
 
@@ -970,6 +1027,8 @@ IMPORTS = 'From SpyneV Require Import Base.Prelude C12.Model C12.Corr.'
 
 
 # ------------------------------------------------------------------ scenarios
+N_FIXED_UNIT = 13
+
 def unit_scenarios(check, tier):
     rng = check.rng
     sc = [
@@ -984,6 +1043,8 @@ def unit_scenarios(check, tier):
         [['memo', [3, 3]], ['memo', [3]]],
         [['memo', [1, 2]], ['memo', [2, 1]], ['memo', [2]]],
         [['wsdl'], ['validate', False, 4], ['attrs', [1, 5]], ['memo', [2, 2]]],
+        [['sort', [2, 2]], ['sort', [2]]],
+        [['sort', [3, 4]], ['sort', [4, 3]], ['attrs', [3]]],
     ]
     n = 4 if tier == 'quick' else 40
     for _ in range(n):
@@ -995,10 +1056,12 @@ def unit_scenarios(check, tier):
                 s.append(['wsdl'])
             elif c < 0.55:
                 s.append(['validate', rng.random() < 0.4, rng.randint(0, 9)])
-            elif c < 0.8:
+            elif c < 0.75:
                 s.append(['attrs', [rng.randrange(N_KEYS) for _ in range(rng.randint(1, 3))]])
-            else:
+            elif c < 0.88:
                 s.append(['memo', [rng.randrange(4) for _ in range(rng.randint(1, 3))]])
+            else:
+                s.append(['sort', [rng.randrange(N_KEYS) for _ in range(rng.randint(1, 3))]])
         sc.append(s)
     return sc
 
@@ -1012,8 +1075,10 @@ def http_request(rng):
         return ['add', rng.randint(-50, 50), rng.randint(0, 1000)]
     if c < 0.55:
         return ['boom', rng.choice(['A', 'B', 'C'])]
-    if c < 0.65:
+    if c < 0.6:
         return ['box', rng.choice(['ann', 'bob']), rng.randint(0, 3)]
+    if c < 0.67:
+        return ['tag', rng.choice(['p', 'qq', 'r-s'])]
     if c < 0.75:
         return ['count', rng.choice(['ann', 'bob']), [rng.randint(1, 9) for _ in range(rng.randint(0, 3))]]
     if c < 0.87:
@@ -1031,6 +1096,8 @@ def http_scenarios(check, tier):
         [['invalid', 1], ['echo', 'b', 2]],
         [['invalid', 1], ['invalid', 2]],
         [['box', 'ann', 2], ['count', 'bob', [1, 2]]],
+        [['tag', 'p'], ['tag', 'qq']],
+        [['tag', 'p'], ['tag', 'p'], ['echo', 'a', 1]],
         [['boom', 'A'], ['add', 1, 2], ['wsdl']],
         [['badint', 3], ['invalid', 4], ['echo', 'c', 3], ['wsdl']],
     ]
@@ -1080,7 +1147,7 @@ def run(check):
         '(the repaired code holds a lock across validate()+error_log, which covers them; the pinned code does not)',
         'the URL of all concurrent ?wsdl requests is the same (the document embeds the URL of the first requester)',
     ]
-    check.regen([])
+    check.regen(['conctext'])
     check.check_sources()
     check.prove('Props.C12', THEOREMS)
 
@@ -1128,7 +1195,7 @@ def run(check):
             handle(check, r, cases)
 
     # 2. line-granularity exploration (sys.settrace line+return events inside the shared-state code)
-    for reqs in unit_scenarios(check, tier)[:11]:
+    for reqs in unit_scenarios(check, tier)[:N_FIXED_UNIT]:
         budget = 40 if quick else 1500
         for r in explore(check, reqs, LINE_FUNCS_SHARED, 1 if quick else 2, budget):
             account(r, 'line_level')
